@@ -46,7 +46,8 @@ class Hit(object):
 
 
 class PathExec(object):
-  def __init__(self, cx, fn, unroll=1, max_paths=4000, follow_exceptions=True):
+  def __init__(self, cx, fn, unroll=1, max_paths=4000, follow_exceptions=True, assume=None):
+    self.assume = dict(assume or {})      # term -> term: configuration values fixed for this run
     self.cx = cx
     self.fn = fn
     self.g = cx.cfg(fn)
@@ -80,10 +81,58 @@ class PathExec(object):
         e.setdefault(p, ('param', p))
     return self._norm(self.se.ev(expr, e, self.fn))
 
+  def _module_dict(self, name):
+    """{constant key: value ast} of a module-level literal dict bound once to ``name`` (None otherwise)."""
+    vals = self.fn.module.globals.get(name, [])
+    if len(vals) != 1 or not isinstance(vals[0], ast.Dict):
+      return None
+    out = {}
+    for k, v in zip(vals[0].keys, vals[0].values):
+      if not isinstance(k, ast.Constant):
+        return None
+      out[k.value] = v
+    return out
+
   def _norm(self, t):
-    """-1 written as USub(1) inside larger terms."""
+    """-1 written as USub(1) inside larger terms; assumed configuration values; lookups in module-level literal dicts."""
     if not isinstance(t, tuple) or not t:
       return t
+    if t in self.assume:
+      return self.assume[t]
+    # TABLE[k] / TABLE.get(k[, default]) with a constant key and a literal module-level TABLE
+    tab = key = default = None
+    has_default = False
+    if t[0] == 'sub' and isinstance(t[1], tuple) and t[1][0] == 'param':
+      tab, key = t[1][1], self._norm(t[2]) if isinstance(t[2], tuple) else ('const', t[2])
+    elif t[0] == 'meth' and t[1] == 'get' and isinstance(t[2], tuple) and t[2][0] == 'param' and len(t) in (4, 5):
+      tab, key = t[2][1], self._norm(t[3])
+      has_default, default = True, (self._norm(t[4]) if len(t) == 5 else ('const', None))
+    elif t[0] == 'call' and t[1].endswith('.get') and t[1].count('.') == 1 and len(t) in (3, 4):
+      tab, key = t[1].split('.')[0], self._norm(t[2])
+      has_default, default = True, (self._norm(t[3]) if len(t) == 4 else ('const', None))
+    # the same on a dict literal held in a local variable
+    lit = None
+    if t[0] == 'sub' and isinstance(t[1], tuple) and t[1][0] == 'dict':
+      lit, key = t[1], (self._norm(t[2]) if isinstance(t[2], tuple) else ('const', t[2]))
+    elif t[0] == 'meth' and t[1] == 'get' and isinstance(t[2], tuple) and t[2][0] == 'dict' and len(t) in (4, 5):
+      lit, key = t[2], self._norm(t[3])
+      has_default, default = True, (self._norm(t[4]) if len(t) == 5 else ('const', None))
+    if lit is not None and isinstance(key, tuple) and key[0] == 'const':
+      for item in lit[1:]:
+        if item[1] == key:
+          return self._norm(item[2])
+      if has_default:
+        return default
+    if tab is not None and isinstance(key, tuple) and key[0] == 'const' and tab not in self.fn.params:
+      d = self._module_dict(tab)
+      if d is not None:
+        try:
+          if key[1] in d:
+            return self._norm(self.se.ev(d[key[1]], dict(self.globals), self.fn))
+        except TypeError:
+          d = None
+        if d is not None and has_default:
+          return default
     if t[0] == 'call' and len(t) == 3 and t[1] == 'USub' and isinstance(t[2], tuple) and t[2][0] == 'const' and \
        isinstance(t[2][1], (int, float)):
       return ('const', -t[2][1])
